@@ -94,6 +94,11 @@ structure Runtime where
   endCancelRaises : Bool
   /-- `self.requests > self.max_requests` in `<worker>/worker_context.py` (extracted comparator) -/
   recycleCmp : Extracted.Guards.Cmp
+  /-- a connection handler cancelled while a transport write is held up by a peer that does not read does not end before
+      the peer reads or leaves (F113; asyncio: `_close()` awaits `writer.wait_closed()`, which waits for the transport to
+      flush; trio: `protocol_send` shields `stream.send_all` from cancellation).  Not a state of the worker model
+      (`HC.Worker.Run`): used by `HC.Worker.BlockedWrite` only; extracted for both workers and measured on every run -/
+  blockedWriteOutlivesCancel : Bool := false
   deriving Repr, DecidableEq
 
 /-- the asyncio worker as the code is now (after the `fix:` commits b14e22f, 4c08dc8, 9c9a997, b7ab22b and 5d167c5 (F32):
@@ -109,7 +114,8 @@ def Runtime.asyncio : Runtime :=
     h2PriorFreshIdleTimer := true,
     -- extracted from protocol/h2.py: does `send_task` release every waiting sender (`finally: … stream_buffer.close()`) when it ends?
     h2CancelDeadlocks := !Extracted.Guards.h2SendTaskReleasesSenders, h2CancelSaysGoaway := true, endCancelRaises := false,
-    recycleCmp := Extracted.Guards.asyncioRecycleCmp }
+    recycleCmp := Extracted.Guards.asyncioRecycleCmp,
+    blockedWriteOutlivesCancel := Extracted.Guards.asyncioCloseWaitsForFlush }
 
 /-- the trio worker as the code is now (after fa7ea28, b7ab22b): the channels are still closed behind a leaving application
     but a put on them is tolerated (`channelsClosedOnExit` = "such a put raises" = false) -/
@@ -117,7 +123,7 @@ def Runtime.trio : Runtime :=
   { taskDoneCheckOnly := false, lifespanInNursery := true, failedSetsEvent := false, channelsClosedOnExit := false,
     exitCheckpoints := true, waitClosedBlocksOnConnections := false, stateCopiedAtServe := true,
     h2PriorFreshIdleTimer := true, h2CancelDeadlocks := false, h2CancelSaysGoaway := false, endCancelRaises := false,
-    recycleCmp := Extracted.Guards.trioRecycleCmp }
+    recycleCmp := Extracted.Guards.trioRecycleCmp, blockedWriteOutlivesCancel := Extracted.Guards.trioSendShielded }
 
 /-- history: the asyncio worker before those commits, on CPython ≥ 3.12.1 (F16, F18, F29, F31, F32) -/
 def Runtime.asyncioBeforeFixes : Runtime :=
